@@ -117,8 +117,63 @@ P = C05Prop("C05", OPTS, OPTS_T, build=build, classify=classify, judge_kinds=[],
                  "objective terms; distinct by hash of the case")
 
 
+def nested_worker(cfg):
+    """stages nested two and three levels deep (inner = outer.stage(...)): sol.value(ocp.objective) is the cost the solver works on
+    and equals the sum of the declared terms evaluated by hand on the sampled solution"""
+    from ..common import setup_rockit_path
+    rockit = setup_rockit_path()
+    import io, contextlib
+    import numpy as np
+    import casadi as ca
+    out = {}
+    try:
+        with contextlib.redirect_stdout(io.StringIO()), contextlib.redirect_stderr(io.StringIO()):
+            ocp = rockit.Ocp()
+            w = ocp.variable()
+            ocp.add_objective(3 * (w - 1) ** 2)
+            Meth = {"MS": lambda: rockit.MultipleShooting(N=2, M=1, intg="rk"), "SS": lambda: rockit.SingleShooting(N=2, M=1, intg="rk"),
+                    "DC": lambda: rockit.DirectCollocation(N=2, M=1, degree=2)}[cfg["method"]]
+            parent, stages = ocp, []
+            for lvl in range(cfg["depth"]):
+                st = parent.stage(t0=lvl, T=1)
+                x = st.state(); u = st.control()
+                st.set_der(x, u - 0.5 * x)
+                st.subject_to(st.at_t0(x) == 0.5 + lvl)
+                st.add_objective((lvl + 1) * st.integral(u ** 2) + st.at_tf(x) ** 2)
+                st.method(Meth())
+                stages.append((st, x, u))
+                if cfg["shape"] == "chain":
+                    parent = st           # the next stage is created BELOW this one
+            ocp.solver("ipopt", {"ipopt.print_level": 0, "print_time": False, "ipopt.max_iter": 4})
+            try:
+                sol = ocp.solve()
+            except Exception:
+                sol = ocp.non_converged_solution
+            out["readback"] = float(sol.value(ocp.objective))
+            out["solver_f"] = float(sol.sol.value(ocp._method.opti.f))
+    except Exception as e_:
+        out["error"] = "%s: %s" % (type(e_).__name__, str(e_)[:300])
+    return out
+
+
 def run(tier="quick", seed=0, jobs=16):
     res = P.run(tier, seed, jobs)
+    import multiprocessing as mp_
+    ncf = [{"method": m, "depth": d, "shape": sh} for m in ("MS", "SS", "DC") for d in (2, 3) for sh in ("chain", "flat")]
+    with mp_.get_context("fork").Pool(min(jobs, len(ncf))) as pool:
+        rn = pool.map(nested_worker, ncf, chunksize=1)
+    for cfg, r in zip(ncf, rn):
+        res["distribution"]["nested/%s" % cfg["shape"]] = res["distribution"].get("nested/%s" % cfg["shape"], 0) + 1
+        if "error" in r:
+            if cfg["shape"] == "flat":
+                res["disagreements"].append({"property": "C05", "case": dict(cfg, _nested=True), "points": [], "finding_key": None,
+                                             "what": [{"what": "a flat multi-stage OCP could not be solved / read back", "error": r["error"]}]})
+            continue      # nesting below a stage with a method may be refused: loud
+        if not engine.close(r["readback"], r["solver_f"], scale=abs(r["solver_f"])):
+            res["disagreements"].append({"property": "C05", "case": dict(cfg, _nested=True), "points": [], "finding_key": None,
+                                         "what": [{"what": "stages nested %d deep (%s): sol.value(ocp.objective) is not the cost the solver minimised" % (cfg["depth"], cfg["shape"]),
+                                                   "sol.value(ocp.objective)": r["readback"], "opti.f at the solution": r["solver_f"]}]})
+    res["evaluations"] += len(ncf)
     # multi-stage: the total objective is the sum of all stage objectives and the master's terms
     # (engine of C12; only the objective is judged here)
     from . import c12
@@ -158,6 +213,9 @@ def run(tier="quick", seed=0, jobs=16):
 def replay(path):
     import json
     d = json.load(open(path))
+    if d.get("case", {}).get("_nested"):
+        print(json.dumps(nested_worker(d["case"]), indent=1))
+        return 0
     if d.get("_multi"):
         from . import c12
         return c12.replay(path)
